@@ -852,41 +852,40 @@ Definition ctx_is (c : option nat) (o : nat) : bool :=
 
 Record gst := mkG { gctx : option nat; gstore : store; glog : list obs }.
 
-(* returns the new state and whether an exception is propagating *)
-Fixpoint gact (fuel : nat) (g : gst) (a : act) {struct fuel} : gst * bool :=
-  match fuel with
-  | O => (g, true)
-  | S f =>
-      match a with
-      | ASet o k v =>
-          (* _Immutable.__setattr__ *)
-          if ctx_is (gctx g) o then (mkG (gctx g) (st_set (gstore g) o k v) (glog g ++ [N]), false)
-          else (mkG (gctx g) (gstore g) (glog g ++ [E eTypeError]), false)
-      | ADel o k =>
-          (* _Immutable.__delattr__ ; object.__delattr__ of a missing attribute: AttributeError *)
-          if ctx_is (gctx g) o then
-            if st_has (gstore g) o k then (mkG (gctx g) (st_del (gstore g) o k) (glog g ++ [N]), false)
-            else (mkG (gctx g) (gstore g) (glog g ++ [E iAttributeError]), false)
-          else (mkG (gctx g) (gstore g) (glog g ++ [E eTypeError]), false)
-      | AInit o body =>
-          (* _immutable_init: previous = _in__init__.set(args[0]); try f() finally reset(previous) *)
-          let previous := gctx g in
-          let '(g1, exc) :=
-            (fix go (g : gst) (l : list act) : gst * bool :=
-               match l with
-               | [] => (g, false)
-               | a :: r => let '(g', exc) := gact f g a in
-                           if exc then (g', true) else go g' r
-               end) (mkG (Some o) (gstore g) (glog g)) body in
-          (mkG previous (gstore g1) (glog g1), exc)
-      | ARaise => (g, true)
-      end
+(* returns the new state and whether an exception is propagating; structural recursion through
+   the nested body lists *)
+Fixpoint gact (g : gst) (a : act) {struct a} : gst * bool :=
+  match a with
+  | ASet o k v =>
+      (* _Immutable.__setattr__ *)
+      if ctx_is (gctx g) o then (mkG (gctx g) (st_set (gstore g) o k v) (glog g ++ [N]), false)
+      else (mkG (gctx g) (gstore g) (glog g ++ [E eTypeError]), false)
+  | ADel o k =>
+      (* _Immutable.__delattr__ ; object.__delattr__ of a missing attribute: AttributeError *)
+      if ctx_is (gctx g) o then
+        if st_has (gstore g) o k then (mkG (gctx g) (st_del (gstore g) o k) (glog g ++ [N]), false)
+        else (mkG (gctx g) (gstore g) (glog g ++ [E iAttributeError]), false)
+      else (mkG (gctx g) (gstore g) (glog g ++ [E eTypeError]), false)
+  | AInit o body =>
+      (* _immutable_init: previous = _in__init__.set(args[0]); try f() finally reset(previous) *)
+      let previous := gctx g in
+      let '(g1, exc) :=
+        (fix go (g : gst) (l : list act) {struct l} : gst * bool :=
+           match l with
+           | [] => (g, false)
+           | a :: r => let '(g', exc) := gact g a in
+                       if exc then (g', true) else go g' r
+           end) (mkG (Some o) (gstore g) (glog g)) body in
+      (mkG previous (gstore g1) (glog g1), exc)
+  | ARaise => (g, true)
   end.
 
-Fixpoint act_size (a : act) : nat :=
-  match a with
-  | AInit _ body => S (fold_right (fun a n => (act_size a + n)%nat) O body)
-  | _ => 1%nat
+(* the body loop of an __init__ (the inner fix of gact, named for the proofs) *)
+Fixpoint gbody (g : gst) (l : list act) : gst * bool :=
+  match l with
+  | [] => (g, false)
+  | a :: r => let '(g', exc) := gact g a in
+              if exc then (g', true) else gbody g' r
   end.
 
 (* top level: each action is run on its own; an escaping exception is caught and logged *)
@@ -894,7 +893,7 @@ Fixpoint grun (g : gst) (l : list act) : gst :=
   match l with
   | [] => g
   | a :: r =>
-      let '(g', exc) := gact (S (act_size a)) g a in
+      let '(g', exc) := gact g a in
       grun (if exc then mkG (gctx g') (gstore g') (glog g' ++ [E 999]) else g') r
   end.
 
